@@ -42,6 +42,56 @@ CLAIMED = {
         "loop order, triangle test, parity split), block-boundary cap, exact factorial table and its reachable index range.",
         "decides R08.1-R08.3 on the current source; rotation invariance as a numerical fact and the Racah formula are not decided",
     ),
+    "C01": (
+        "symbolic slice polynomials and index chains: block layout of the orbit buffers, column alignment under one mask, wrap-before-merge data flow, merge-guard strictness, producer/consumer key agreement",
+        "clause-level static decision on SpaceGroup.apply_all_symops and Crystal.unit_cell_atoms: the orbit is enumerated (every "
+        "operation once, identity first), wrapped into [0,1), merged and labelled with aligned bookkeeping, and every consumer key "
+        "exists. Not 'the output equals the orbit': which images coincide is a run-time KD-tree fact.",
+        "decides R01.1-R01.5; inherits C02 (the operation list is the group) and C11 (decode/apply); KD-tree distances, the merge "
+        "tolerance and float wrap at x = -K are not decided",
+    ),
+    "C02": (
+        "exhaustive exact table model (integers mod 12) of all 530 settings + semantics of LATT/SYMM extracted from the code and turned into table obligations",
+        "exhaustive over the bundled table: identity, closure under composition and inversion, flag agreement, lookup-key ordering, "
+        "centring soundness for every row; the LATT sign predicate, the coset coverage of the reduction and constructor selection "
+        "are decided on the code. Nearly the whole property is decided (finite domain).",
+        "decides T02.1-T02.5, R02.1, R02.3-R02.5; assumes decode_symm_int implements the model's packing (decided by C11 R11.1)",
+    ),
+    "C03": (
+        "extent/centre splitting of ceil/floor arguments in rational normal form + lattice-length-kind and coordinate-space tags; slice polynomials of slab blocks",
+        "clause-level static decision on the seven radius-to-cell-range sites and slab(): the half-extent is radius x reciprocal "
+        "length, rounding and accumulation include every cell the ball can reach, operands live in the right coordinate space, slab "
+        "columns are aligned, the centre's own atoms are excluded with one keep index. Completeness of the cell range is decided; "
+        "the KD-tree query itself is not.",
+        "decides R03.1-R03.5; KD-tree ball queries, tolerance edge cases and tightness of ceil are not decided",
+    ),
+    "C04": (
+        "writer/reader agreement of the periodic edge convention, index-chain alignment (G5), wrap idioms, guard dominance for length-safe comparison",
+        "clause-level static decision on unit_cell_connectivity / unit_cell_molecules / symmetry_unique_molecules: edge keys and "
+        "shift signs agree between writer and breadth-first reader, all per-atom arrays of a molecule share one index chain, "
+        "recentring orientation, partition by component labels, length-safe comparison, one symmetric bonding predicate.",
+        "decides R04.1-R04.6; the greedy choice of unique molecules, Z' x |G| and geometry are not decided",
+    ),
+    "C11": (
+        "literal-loop unrolling of the integer codec into a linear form compared with an independent exact model; digit-radix reduction rule from the closed interval of x % 1; matrix word algebra for the three apply forms; regex AST structure",
+        "clause-level static decision on symmetry_operation.py and Crystal.cartesian_symmetry_operations: codec weights/offsets, "
+        "digit reduction, construction-time wrapping, one equality key, memo seeding, the three application forms as one affine "
+        "map, string codec structure.",
+        "decides R11.1-R11.7; the grammar of accepted spellings and the enumeration of all 34,012,224 codes are executions and are not decided",
+    ),
+    "C14": (
+        "effect analysis: per-method may-write sets on self-state through aliases, property accessors, typed attributes and callees; memo inventory; all-paths-after invalidation; read sets",
+        "clause-level static decision on class Crystal: every method that may change cell, space group or asymmetric unit drops "
+        "every memo afterwards and the exported CIF refreshes all state-derived items; every other method is pure on the state and "
+        "on memoised payloads; memoised values depend only on the state. Nearly the whole property is structural.",
+        "decides R14.1-R14.5; aliasing through objects the caller keeps and argument-dependent memo staleness (excluded by the property) are not decided",
+    ),
+    "C15": (
+        "line-classifier prefix agreement (dispatcher vs loop terminator), guard dominance of the full-match test, regex ASTs via re._parser (never executed), writer template structure",
+        "clause-level static decision on fmt/cif.py: structural prefixes, full-match number recognition, one quoting predicate "
+        "whose delimiter the tokenizer and parse_value know, loop emission pairing, number formats within the reader's language.",
+        "decides R15.1-R15.5; arbitrary strings (tabs, nested quotes, runs of blanks) and semicolon text blocks are not decided",
+    ),
 }
 
 PENDING_REASON = "check under construction (DESIGN.md section 5); not yet claimed"
